@@ -258,7 +258,6 @@ func (p *pkg) Rows() ([]Row, error) {
 	in := newInterp(p)
 	in.rowsMode = true
 	fr := newFrame(fd)
-	fr.noLets = true
 	res, err := in.block(fd.Body.List, fr)
 	if err != nil {
 		return nil, err
@@ -334,7 +333,6 @@ func (p *pkg) addFn(fn string, order []string, kinds map[string]string) (string,
 	}
 	in := newInterp(p)
 	fr := newFrame(fd)
-	fr.noLets = true
 	if len(fd.Recv.List) == 1 && len(fd.Recv.List[0].Names) == 1 {
 		fr.vars[fd.Recv.List[0].Names[0].Name] = &cell{v: &val{k: kDB}}
 	}
@@ -390,7 +388,6 @@ func (p *pkg) toMM(order []string, kinds map[string]string) (string, error) {
 	}
 	in := newInterp(p)
 	fr := newFrame(fd)
-	fr.noLets = true
 	recv := fd.Recv.List[0].Names[0].Name
 	rv := &val{k: kRec, rec: &record{typ: "ThreadParameters", whole: coqIdent(recv), f: map[string]*val{}}}
 	if strings.HasPrefix(typeName(fd.Recv.List[0].Type), "*") {
